@@ -9,6 +9,9 @@ from .common import *
 from . import pe
 
 VIEW = 'norm'
+# 'reported variable values': a fixed variable is read back through SampleSet::get / Solution state, where
+# the recorded substituted value has to win over a sampled one (seed C03-9); decided by C06's rule family
+RELIES_ON = {'C06': ['C06.get']}
 
 INST = 'v1::Instance'; DV = 'v1::DecisionVariable'
 
